@@ -116,9 +116,18 @@ def _real_tier(sc, rs, tier, seed):
                          timeout=300 if tier == "quick" else 1800)
 
 
-def _real(fields):
-    return {"harness": "hconn", "driver": "conndrv", "fields": fields, "custom": _real_tier,
-            "quick": {"n": 36, "shards": 1}, "thorough": {"n": 600, "shards": 1}}
+def _sim_and_real(sc, rs, tier, seed):
+    """The simulated-kernel stream (corpus first) and, merged into the same result, the real-socket tier."""
+    from . import core
+    par = rs[tier] if tier in rs else rs["quick"]
+    r = core.diff_run(sc, "hconn", "conndrv", ["-n", str(par["n"]), "-tier", tier], par["shards"], seed,
+                      fields=rs.get("fields"), corpus=core.load_corpus("conn"), timeout=par.get("timeout", 1500))
+    r.merge(_real_tier(sc, rs, tier, seed))
+    return r
+
+
+def _run_with_real(fields):
+    return dict(_run(fields), custom=_sim_and_real)
 
 
 def cs_model_appends_only(sc):
@@ -150,8 +159,8 @@ PROPS = {
                     "oracle on the implementation alone",
             "note": "model fidelity is sampled on every run (simulated kernel: vsys shim); real sockets are not part of this check",
             "technique": _TECH},
-        "lean": ["NbioVerif.Properties.C01", "NbioVerif.Properties.ConnTimer"], "drivers": ["conndrv"], "harness": ["hconn"],
-        "runs": [_run(["n", "err", "ow", "cb", "rc", "deliv", "closed", "wire", "onclose", "wtimer"]), _real([])],
+        "lean": ["NbioVerif.Properties.C01", "NbioVerif.Properties.ConnTimer", "NbioVerif.Properties.ConnClose"], "drivers": ["conndrv"], "harness": ["hconn"],
+        "runs": [_run_with_real(["n", "err", "ow", "cb", "rc", "deliv", "closed", "wire", "onclose", "wtimer"])],
         "oracles": ["c01-"], "cs": _CS,
         "rule": "case = (stream type, epoll mode, bound, calls inside the open callback, op sequence with scripted kernel answers); distinct by "
                 "hash of (cell, per op: kind, error class, delivered event parts, queue length class, closed); non-trivial iff a backlog existed "
@@ -170,7 +179,7 @@ PROPS = {
             "note": "liveness in safety form (armed invariant + decreasing measure) under the assumption that an armed writable fd is eventually reported",
             "technique": _TECH},
         "lean": ["NbioVerif.Properties.C04"], "drivers": ["conndrv"], "harness": ["hconn"],
-        "runs": [_run(["deliv", "closed", "wl", "wadded", "reg", "ctl", "onclose"]), _real([])],
+        "runs": [_run_with_real(["deliv", "closed", "wl", "wadded", "reg", "ctl", "onclose"])],
         "oracles": ["c04-"], "cs": _CS,
         "rule": "same stream as C01 (writes inside the open callback before registration, from the data callback while an event is handled, "
                 "and between events; EPOLLOUT-only events whose flush ends in EAGAIN); non-trivial iff a backlog existed at some observation",
